@@ -19,7 +19,7 @@ DECOY_VALUES = {"';'": ";", '"&&"': "&&", "'||'": "||", "a\\;b": "a;b", "'#'": "
                 "中文": "中文", "'日本 ; 語'": "日本 ; 語", '"é && é"': "é && é", "é": "é"}
 
 # operands that set the status to 0 without running a program
-SILENT = {"assign": "VA%(i)d=v%(i)d", "assign2": "VA%(i)d=1 VB%(i)d=2", "export": "export VX%(i)d=1", "cd": "cd .", "alias": "alias zz%(i)d=vp_a"}
+SILENT = {"source-defs": "source defs.sh", "assign": "VA%(i)d=v%(i)d", "assign2": "VA%(i)d=1 VB%(i)d=2", "export": "export VX%(i)d=1", "cd": "cd .", "alias": "alias zz%(i)d=vp_a"}
 
 _sb = None
 
@@ -27,6 +27,9 @@ _sb = None
 def _init(cicada):
     global _sb
     _sb = Sandbox(cicada, "c03")
+    # a file that defines a function and runs nothing: sourcing it succeeds
+    with open(os.path.join(_sb.work, "defs.sh"), "w") as f:
+        f.write("# definitions only\nfunction vpfn {\n    vp_argv infn\n}\n")
 
 
 def model(prog):
@@ -65,7 +68,7 @@ def render(prog, spacing):
         if opd[0] == "s":
             parts.append("vp_status %d %s" % (opd[1], opd[2]) + "".join(" " + d for d in opd[3]))
         elif opd[0] == "q":
-            parts.append("vp_argv Q%d $?" % i)
+            parts.append("vp_argv Q%d %s" % (i, "${?}" if len(opd) > 1 and opd[1] == "brace" else "$?"))
         elif opd[0] == "k":
             parts.append("vp_status sig%d %s" % (opd[1], opd[2]))
         else:
@@ -146,7 +149,7 @@ def gen_cases(tier, seed):
             op = None if i == 0 else rng.choice(OPS)
             r = rng.random()
             if r < 0.3:
-                opd = ("q",)
+                opd = ("q", rng.choice(["plain", "plain", "brace"]))
             elif r < 0.42:
                 opd = ("z", rng.choice(sorted(SILENT)))
             elif r < 0.5:
